@@ -38,6 +38,25 @@ TRUSTED = [
 ]
 ASSUME = ["caller ids are distinct", "the delivery log is recorded by a wrapper around read_stream.receive() (one wrapper per caller)"]
 KNOWN_CLASS = "response-discarded-by-other-waiter"
+IN_ORDER_CLASS = "response-discarded-by-other-waiter-although-answers-came-in-request-order"
+
+
+def pure_in_order(sc):
+    """Only answers to the callers are on the connection, one each, in the order in which the requests were sent (callers
+    start together, in index order), and none at the very instant at which all waiters re-queue (every 0.5 s = 50 ticks in
+    the recorded implementation, where the re-queueing order races with the delivery - part of the recorded finding).  The
+    recorded finding does not reach such a history: the waiters queue in request order and every answer meets its own
+    addressee at the head."""
+    ks = []
+    for t, m in sc["arrivals"]:
+        if m[0] not in ("res", "err") or m[1][0] != "caller" or t % 50 == 0:
+            return False
+        if t >= sc["callers"][m[1][1]][1] - 1:
+            return False    # an answer after its caller's deadline is dequeued by somebody else by necessity
+        ks.append(m[1][1])
+    if len(sc["callers"]) > 2 and any(t >= 50 for t, _m in sc["arrivals"]):
+        return False        # three or more waiters re-queueing together: their order is not stable in the recorded implementation
+    return ks == list(range(len(ks))) and not sc.get("delivery_first")     # nobody is skipped: a waiter ahead of the addressee would take it
 
 
 class Tap:
@@ -145,6 +164,14 @@ def gen(ctx):
                         callers[perm[0]] = (twins[perm[0]], 30)
                         arr = [(t + 40, m) for t, m in arr]
                     out.append({"callers": callers, "arrivals": arr})
+    # requests with DIFFERENT timeouts (a 3 s health check beside a 6 s tool call), answered in request order at every moment
+    # of the first three seconds: each caller gets its own answer
+    for ds in ((600, 300), (300, 600), (300, 100), (100, 6000), (600, 300, 100), (200, 400, 800)):
+        for t in range(5, 300, ctx.budget(10, 5)):
+            for gap in (0, 3):
+                arr = [(t + gap * k, ("res", ("caller", k), 100 + k)) for k in range(len(ds)) if t + gap * k < ds[k] - 2]
+                if arr:
+                    out.append({"callers": [(names[k], ds[k]) for k in range(len(ds))], "arrivals": arr})
     for _ in range(ctx.budget(300, 6000)):
         n = rng.choice((2, 3, 4))
         callers = [(names[k], rng.choice((60, 100, 300))) for k in range(n)]
@@ -227,7 +254,7 @@ def explore(ctx, model, spec):
             taker = next((j for j, n in log if n == first), None)
             ctx.count("lost-response")
             if taker is not None and taker != k:
-                ctx.spec_violation(KNOWN_CLASS, case, f"caller {k} ({cid}) timed out: its response (arrival #{first}) was dequeued and "
+                ctx.spec_violation(IN_ORDER_CLASS if pure_in_order(sc) else KNOWN_CLASS, case, f"caller {k} ({cid}) timed out: its response (arrival #{first}) was dequeued and "
                                                       f"discarded by caller {taker}")
             elif taker == k:
                 ctx.spec_violation("response-dequeued-by-addressee-but-not-returned", case, f"caller {k}: {outs[k]}")
